@@ -335,7 +335,7 @@ class RecCallable:
         return self.inner(t)
 
 
-def run_stubbed(backend, data, cfg, jump_plan=None, rate=0.0):
+def run_stubbed(backend, data, cfg, jump_plan=None, rate=0.0, force_perm=None):
     """Run a real back-end (`sv`, `mps`, `dmrg`, `noisy`) on `data` with the evolution replaced by a recorder.
     Returns (results, log) where log = dict(steps, acc, queries, step_mats).
 
@@ -409,6 +409,8 @@ def run_stubbed(backend, data, cfg, jump_plan=None, rate=0.0):
                 HOLDER["started"] = True
                 if backend == "dmrg":
                     HOLDER["steps"] = HOLDER["impl_index"]
+                    if HOLDER["impl_index"] > 0:      # called at the end of step k, before the matrix is refreshed
+                        HOLDER["step_mats"].append(self.current_interaction_matrix)
                 return real_fill(self)
 
             st.enter_context(mock.patch.object(mi.MPSBackendImpl, "_evolve", stub_evolve))
@@ -416,6 +418,12 @@ def run_stubbed(backend, data, cfg, jump_plan=None, rate=0.0):
             st.enter_context(mock.patch.object(mi.MPSBackendImpl, "fill_results", fill))
             if backend == "noisy":
                 st.enter_context(mock.patch.object(mi.random, "uniform", scripted_uniform))
+            if force_perm is not None:
+                # the site order is RCM's choice; force it (site k holds atom force_perm[k]) to reach permutations that
+                # are not involutions. The matrix is still requested, as `minimize_bandwidth` would.
+                import torch
+                st.enter_context(mock.patch.object(mi.optimat, "minimize_bandwidth",
+                                                   lambda m: torch.tensor(force_perm, dtype=torch.long)))
             res = compat.run_mps(data, cfg)
     return res, dict(HOLDER)
 
